@@ -24,6 +24,16 @@ fn build_cache(seed: u64) -> Cache {
     let hb = SimHashBuilder::new(mode, rng.next_u64());
     let limit = if rng.bool() { usize::MAX } else { 12 * (entry_overhead() + 8) };
     let mut c = if rng.bool() { Cache::with_hasher(limit, hb) } else { Cache::with_capacity_and_hasher(limit, rng.below(20) as usize, hb) };
+    // size classes: the usual 10-40 operations, but also caches that end up empty (with capacity),
+    // with a single entry, with two, and (rarely) with more than a thousand entries
+    let class = rng.below(16);
+    if class == 0 {
+        let n = 1030 + rng.below(200) as u32;
+        for k in 0..n {
+            let _ = c.insert(SimKey::new(1000 + k, 0), SimVal::new(1));
+        }
+        return c;
+    }
     let n = 10 + rng.below(30);
     for _ in 0..n {
         let k = rng.below(16) as u32;
@@ -47,6 +57,27 @@ fn build_cache(seed: u64) -> Cache {
                 c.touch(&KeyId(k));
             }
         }
+    }
+    match class {
+        1 => {
+            // empty, capacity kept (drain or clear)
+            if rng.bool() {
+                c.clear();
+            } else {
+                drop(c.drain());
+            }
+        }
+        2 | 3 => {
+            while c.len() > 1 {
+                c.remove_lru();
+            }
+        }
+        4 => {
+            while c.len() > 2 {
+                c.remove_mru();
+            }
+        }
+        _ => {}
     }
     c
 }
